@@ -10,7 +10,7 @@
 //!   peer <id> <port>
 //!   fault <n> | fault peer <n>      (the (n+1)-th record write to the Raft log / the peer log from now fails)
 //!   wopen | wappend <len>:<seed> | wreadall | wclose        (the bare WAL wrapper)
-//!   sm new | sm apply <idx>:<term>:<payload>[:r] ... | sm state      (C19: the state-machine adapter; payload =
+//!   sm failnext (the application's next apply fails on this node only) | sm new | sm apply <idx>:<term>:<payload>[:r] ... | sm state      (C19: the state-machine adapter; payload =
 //!       b (blank) | m<id> (membership) | s<k>=<v> | g<k> | d<k> | x (a command the application rejects); `:r` = the
 //!       entry carries a responder, as on the node that proposed it)
 #![allow(dead_code, unused_imports, unused_variables, unused_mut)]
@@ -112,9 +112,14 @@ mod smstore {
 struct RecordingKv {
     inner: state_machine::KvStateMachine,
     seen: std::sync::Mutex<Vec<Vec<u8>>>,
+    /// the next `apply` fails on this node only, before the application takes the command
+    fail_next: std::sync::atomic::AtomicBool,
 }
 impl state_machine::StateMachineTrait for RecordingKv {
     fn apply(&self, command: &[u8]) -> std::result::Result<bytes::Bytes, String> {
+        if self.fail_next.swap(false, std::sync::atomic::Ordering::SeqCst) {
+            return Err("injected node-local failure".into());
+        }
         self.seen.lock().unwrap().push(command.to_vec());
         self.inner.apply(command)
     }
@@ -215,7 +220,7 @@ fn main() {
             match t[0] {
                 "sm" => match t[1] {
                     "new" => {
-                        let kv = Arc::new(RecordingKv { inner: state_machine::KvStateMachine::in_memory(), seen: Default::default() });
+                        let kv = Arc::new(RecordingKv { inner: state_machine::KvStateMachine::in_memory(), seen: Default::default(), fail_next: Default::default() });
                         adapter = Some((smstore::new_mem_state_machine(kv.clone()), kv));
                         "ok".into()
                     }
@@ -245,6 +250,11 @@ fn main() {
                         let r = tokio::block_on(a.apply(VecStream(items)));
                         let resp = sink.borrow().iter().map(|(i, b)| format!("{}={}", i, String::from_utf8_lossy(b))).collect::<Vec<_>>().join(",");
                         format!("{} resp=[{}]", if r.is_ok() { "ok" } else { "err" }, resp)
+                    }
+                    "failnext" => {
+                        let Some((_, kv)) = adapter.as_mut() else { return "err:closed".into() };
+                        kv.fail_next.store(true, std::sync::atomic::Ordering::SeqCst);
+                        "ok".into()
                     }
                     "state" => {
                         let Some((a, kv)) = adapter.as_mut() else { return "err:closed".into() };
